@@ -656,6 +656,9 @@ func runC08(t gen.Tier, r *gen.Rng, rep *Reporter) {
 		if derr != nil || n < 1 {
 			continue
 		}
+		if pref == "ber" && n-1 == 0 {
+			continue // a BER-TLV prefixer with Length 0 has no maximum: nothing to enforce
+		}
 		// the same bytes under a composite spec whose maximum is one below the real body length
 		strict := relaxLen(specT, n-1)
 		strict.Kids[0], strict.Kids[1] = impl.A(strconv.Itoa(n-1)), specT.Kids[1]
